@@ -13,7 +13,7 @@ var opPool = []string{"+", "-", "*", "/", "%", "&", "|", "^", "=", "!=", "<>", "
 
 var wsPool = []string{" ", "  ", "\t", "\n", "\r\n", "\r", " \n ", "\n\n", "\r\r\n", " \t\r\n"}
 
-var oddRunes = []rune{'é', 'µ', 'ß', '日', '本', '𝄞', 0x212a, 0x00a0, 0x2028, 0xfeff, 0x7f, 0x01, 0x1f, 0x85}
+var oddRunes = []rune{'é', 'µ', 'ß', '日', '本', '𝄞', 0x212a, 0x00a0, 0x2028, 0xfeff, 0x7f, 0x01, 0x1f, 0x85, 0xfffd, 0xfffe, 0xffff, 0xd7ff, 0xe000, 0x2018, 0x2019, 0x201c, 0x201d, 0xff07, 0xff02, 0x02bc, 0x0130, 0x017f, 0x10ffff}
 
 func pick(r *rand.Rand, xs []string) string { return xs[r.Intn(len(xs))] }
 
